@@ -732,7 +732,7 @@ impl Model {
             .map(|(r, i)| format!("{}:{}", r, i))
             .collect();
         format!(
-            "list={} sel={} nopt={} mc={} clear={:?} cur={} run={} pool={}/{} rdone={} re={} q={:?}",
+            "list={} sel={} nopt={} mc={} clear={:?} cur={} run={} pool={}/{} rdone={} re={} cq={:?} q={:?}",
             list.join(","),
             sel.join(","),
             self.num_options,
@@ -744,6 +744,7 @@ impl Model {
             self.item_pool.len(),
             self.reader_control.as_ref().map(|c| c.is_done()).unwrap_or(true),
             self.use_regex,
+            env.cmd_query,
             env.query,
         )
     }
